@@ -891,8 +891,7 @@ class Expectation(Pytree):
             effectively performing only the forward pass through the stochastic
             computation graph.
         """
-        tangents = jtu.tree_map(lambda _: 0.0, args)
-        return self.jvp_estimate(*Dual.dual_tree(args, tangents)).primal
+        return self.jvp_estimate(*Dual.tree_pure(args)).primal
 
 
 def expectation(source: Callable[..., Any]) -> Expectation:
